@@ -92,5 +92,11 @@ pub fn run(ctx: &Ctx) -> usize {
 	if run_dna(ctx, "dna", cases, dna_max(ctx), |dna, counting| check_model(ctx, &model_from_dna(dna, &cfg), counting)).is_some() {
 		violations += 1;
 	}
+	if !ctx.quick() && violations == 0 {
+		let secs = std::env::var("PV_FUZZ_SECS").ok().and_then(|s| s.parse().ok()).unwrap_or(240);
+		if rt::run_fuzz(ctx, "model_roundtrip", secs, 8, 4096, &rt::random_seeds(ctx.seed, 12, 1024)).is_some() {
+			violations += 1;
+		}
+	}
 	violations
 }
